@@ -37,16 +37,29 @@ package dns
 // the zone parser's line state machine: while no class token has been seen on a line the class is IN
 // (states zExpectOwnerBl=15, zExpectAny=16, zExpectAnyNoTTL=19, zExpectAnyNoTTLBl=20); the most recently stated TTL is tracked unless a $TTL directive is
 // in force, $INCLUDE opens a file only when allowed and below the depth limit, $GENERATE does not nest
-//@ func (*ZoneParser).Next [C06 C07]
+//@ func (*ZoneParser).Next [C06 C07 C05:track]
 //@   requires zp != nil && zp.c != nil
 //@   requires lexinv: (zp.c.l.value == 1 ==> len(zp.c.l.token) > 0) && (zp.c.cachedL != nil ==> (zp.c.cachedL.value == 1 ==> len(zp.c.cachedL.token) > 0))
 //@   loop * invariant (zp.c.l.value == 1 ==> len(zp.c.l.token) > 0) && (zp.c.cachedL != nil ==> (zp.c.cachedL.value == 1 ==> len(zp.c.cachedL.token) > 0))
 //@   assume at "*rr.Header() = *h" tabctor: rr != nil && zp.c != nil && (zp.c.l.value == 1 ==> len(zp.c.l.token) > 0) && (zp.c.cachedL != nil ==> (zp.c.cachedL.value == 1 ==> len(zp.c.cachedL.token) > 0))
 //@   loop 1 invariant (st == 15 || st == 16 || st == 19 || st == 20) ==> zp.h.Class == 1 [C06]
 //@   assert at "h.Rrtype = l.torc@1" classin: zp.h.Class == 1 [C06]
-//@   assert at "st = zExpectAnyNoTTLBl@1" ttltrack0: zp.defttl != nil && (zp.defttl.isByDirective || zp.defttl.ttl == ttl) && zp.h.Ttl == ttl [C06]
+//@   assert at "st = zExpectAnyNoTTLBl@1" ttltrack0: zp.defttl != nil && (zp.defttl.isByDirective || zp.defttl.ttl == ttl) && zp.h.Ttl == ttl [C05 C06]
 //@   assert at "st = zExpectAnyNoTTLBl@2" ttltrack1: zp.defttl != nil && (zp.defttl.isByDirective || zp.defttl.ttl == ttl) && zp.h.Ttl == ttl [C06]
 //@   assert at "st = zExpectRrtypeBl@2" ttltrack2: zp.defttl != nil && (zp.defttl.isByDirective || zp.defttl.ttl == ttl) && zp.h.Ttl == ttl [C06]
+// a class token is recorded wherever it may stand (before the TTL, after it - the order String() prints - or alone)
+//@   assert at "st = zExpectAnyNoClassBl@1" classtrack0: zp.h.Class == l.torc [C05 C06]
+//@   assert at "st = zExpectAnyNoClassBl@2" classtrack1: zp.h.Class == l.torc [C05 C06]
+//@   assert at "st = zExpectRrtypeBl@1" classtrack2: zp.h.Class == l.torc [C05 C06]
+// an included file starts from the includer's TTL state (the very state object: value and set-by-directive flag)
+//@   assert at "zp.sub.SetIncludeFS(zp.fsys)" inherit: zp.sub.defttl == zp.defttl && zp.sub.includeDepth == zp.includeDepth + 1 && zp.sub.includeAllowed [C06]
+//@   assert at "$INCLUDE directive not allowed" notallowed: !zp.includeAllowed [C07]
+//@   assert at "too deeply nested $INCLUDE" toodeep: zp.includeDepth >= 7 [C07]
+// a relative include path is resolved against the directory of the including file; the sub-parser reads through
+// the same file system
+//@   callsite "Dir" ofincluder: arg0 == zp.file [C06 C07]
+//@   callsite "Join" relative: arg0[0] == callres("Dir") && len(arg0) == 2 [C06 C07]
+//@   callsite "SetIncludeFS" samefs: arg0 == zp.sub && arg1 == zp.fsys [C07]
 //@   assert at "r1, e1 = zp.fsys.Open(includePath)" gatefs: zp.includeAllowed && zp.includeDepth < 7 [C07]
 //@   assert at "r1, e1 = os.Open(includePath)" gateos: zp.includeAllowed && zp.includeDepth < 7 [C07]
 //@   assert at "zp.sub = NewZoneParser(r1, neworigin, includePath)" depth: zp.includeDepth < 7 [C07]
@@ -63,6 +76,18 @@ package dns
 
 // $GENERATE: the range is checked before the generator is built, the generator stops at the end of the
 // range or when its counter would overflow, and a nested $GENERATE is refused
+// the setters set what they say and nothing else: includes are off until SetIncludeAllowed(true), a default TTL
+// given by the caller is not a $TTL directive
+//@ func (*ZoneParser).SetIncludeAllowed [C07]
+//@   requires zp != nil
+//@   ensures zp.includeAllowed == v
+//@   modifies H.ZoneParser.includeAllowed.v
+//@ func (*ZoneParser).SetDefaultTTL [C06]
+//@   requires zp != nil
+//@   ensures zp.defttl != nil && zp.defttl.ttl == ttl && !zp.defttl.isByDirective
+//@ func (*ZoneParser).SetIncludeFS [C07]
+//@   requires zp != nil
+//@   ensures zp.fsys == fsys
 //@ func NewZoneParser [C06 C07]
 //@   opt no-safety
 //@   ensures ret0 != nil && ret0.c != nil && ret0.sub == nil && (ret0.c.l.value == 1 ==> len(ret0.c.l.token) > 0) && (ret0.c.cachedL != nil ==> (ret0.c.cachedL.value == 1 ==> len(ret0.c.cachedL.token) > 0))
